@@ -1,13 +1,22 @@
 import IrVerif.Drive.Util
 import IrVerif.Model.Sort
+import IrVerif.Model.SortState
+import IrVerif.Model.SortIds
 /-! Protocol handler for the C12 model (`IrVerif.Sort`).
 
-Requests: `{"m": "sort.sort", "graph": G}`, `{"m": "sort.universe", "graph": G}` with
+Requests: `{"m": "sort.sort", "graph": G}` (`r` = `sortModel`, `after` = `sortEffect`, `ids` = `sortIds`, the
+transcription with identity-keyed dicts), `{"m": "sort.universe", "graph": G}` with
 `G = {"g": gid, "n": [N...]}` and `N = {"i": id, "in": [producer id | null ...], "s": [G...]}`;
 `{"m": "sort.pass", "graphs": [G...]}` (TopologicalSortPass over main graph + functions; `partial` = the
 containers right after the sorts, before the restore step of fix D201);
 `{"m": "sort.hyp", "graph": G}` (the hypotheses `WellScoped` / `OrderedG` of the fixpoint theorems);
-`{"m": "sort.relink", "cur": [...], "xs": [...]}`. -/
+`{"m": "sort.relink", "cur": [...], "xs": [...]}`;
+`{"m": "sort.state", "events": [E...]}` runs a whole history on the stateful world (`Model/SortState.lean`,
+containers = C11's pointer-level model): `E = {"e":"new"}` | `{"e":"op","g":k,"o":"append|extend|ia|ib|rm",...}` |
+`{"e":"tables","ins":[[v,[p|null..]]..],"attrs":[[v,[{"g":k}|{"gs":[k..]}..]]..]}` |
+`{"e":"sort","g":k,"order":[k..]|null}`; the answer has one record per sort: outcome, write trace, node
+sequence of every container afterwards, C11's executable invariant on every container, the keys of
+`sorted_nodes_by_graph` and whether the requested re-link order was an arrangement of them. -/
 open Lean IrVerif.Drive
 namespace IrVerif.Drive.Sort
 open IrVerif.Sort
@@ -32,14 +41,92 @@ end
 def graphsJ (r : List (Nat × List Nat)) : Json :=
   Json.arr (r.map (fun (p : Nat × List Nat) => Json.arr #[toJson p.1, natsJ p.2])).toArray
 
+def parseSOp (j : Json) : Except String SOp := do
+  let e ← getStr j "e"
+  match e with
+  | "new" => return .newGraph
+  | "op" =>
+    let g ← getNat j "g"
+    let o ← getStr j "o"
+    match o with
+    | "append" => return .edit g (.append (← getNat j "v"))
+    | "extend" => return .edit g (.extend (← getNats j "vs"))
+    | "ia" => return .edit g (.insertAfter (← getNat j "a") (← getNats j "vs"))
+    | "ib" => return .edit g (.insertBefore (← getNat j "a") (← getNats j "vs"))
+    | "rm" => return .edit g (.remove (← getNat j "v"))
+    | _ => throw s!"unknown container op {o}"
+  | "tables" =>
+    let insJ ← getArr j "ins"
+    let ins ← insJ.mapM (fun x => do
+      let a ← (fromJson? x : Except String (Array Json))
+      let v ← (fromJson? a[0]! : Except String Nat)
+      let ps ← (fromJson? a[1]! : Except String (Array Json))
+      let ps ← ps.toList.mapM (fun y => match y with
+        | Json.null => pure (none : Option Nat)
+        | y => do let n ← (fromJson? y : Except String Nat); pure (some n))
+      pure (v, ps))
+    let attrsJ ← getArr j "attrs"
+    let attrs ← attrsJ.mapM (fun x => do
+      let a ← (fromJson? x : Except String (Array Json))
+      let v ← (fromJson? a[0]! : Except String Nat)
+      let as ← (fromJson? a[1]! : Except String (Array Json))
+      let as ← as.toList.mapM (fun y => match y.getObjValAs? Nat "g" with
+        | .ok h => pure (LinkedSet.Attr.graph h)
+        | .error _ => do
+          let hs ← getNats y "gs"
+          pure (LinkedSet.Attr.graphs hs))
+      pure (v, as))
+    return .tables ins attrs
+  | "sort" =>
+    let g ← getNat j "g"
+    match j.getObjVal? "order" with
+    | .ok Json.null => return .sort g none
+    | .ok _ => return .sort g (some (← getNats j "order"))
+    | .error _ => return .sort g none
+  | _ => throw s!"unknown event {e}"
+
+def isPermOf (a b : List Nat) : Bool :=
+  a.length == b.length && a.all (fun x => a.count x == b.count x)
+
+def soutJ : SOut → Json
+  | .ok => Json.str "ok"
+  | .valueError => Json.str "valueError"
+  | .recursionError => Json.str "recursionError"
+
+/-- run a history; a requested order that is not an arrangement of the keys is replaced by the
+    default order and reported -/
+def runState (evs : List SOp) : List Json :=
+  let rec go (w : SWorld) : List SOp → List Json
+    | [] => []
+    | o :: os =>
+      match o with
+      | .sort g ord =>
+        let keys := defaultOrder w g
+        let okOrd := match ord with
+          | none => true
+          | some l => isPermOf l keys
+        let st := stepW w (.sort g (if okOrd then ord else none))
+        match st.2 with
+        | none => go st.1 os
+        | some r =>
+          obj [("out", soutJ r.out), ("trace", graphsJ r.trace),
+            ("after", Json.arr (r.world.rw.sets.map (fun s => natsJ (LinkedSet.toList s))).toArray),
+            ("inv", toJson (r.world.rw.sets.all LinkedSet.invOk)),
+            ("keys", natsJ keys), ("order_ok", toJson okOrd)] :: go st.1 os
+      | o => go (stepW w o).1 os
+  go SWorld.init evs
+
 def handle : Handler := fun m j =>
   match m with
   | "sort.sort" => some do
       let g ← parseGraph (← j.getObjVal? "graph")
       let eff := sortEffect g
+      let ids := match sortIds g with
+        | none => Json.str "raised"
+        | some r => graphsJ r
       match sortModel g with
-      | none => return obj [("r", Json.str "raised"), ("after", graphsJ eff.2)]
-      | some r => return obj [("r", graphsJ r), ("after", graphsJ eff.2)]
+      | none => return obj [("r", Json.str "raised"), ("after", graphsJ eff.2), ("ids", ids)]
+      | some r => return obj [("r", graphsJ r), ("after", graphsJ eff.2), ("ids", ids)]
   | "sort.universe" => some do
       let g ← parseGraph (← j.getObjVal? "graph")
       return obj [("r", Json.arr ((nodesOf g).map (fun e =>
@@ -55,6 +142,10 @@ def handle : Handler := fun m j =>
       return obj [("ws", toJson (decide (WellScoped g))),
         ("ordered", Json.arr ((allGraphs g).map (fun h =>
           Json.arr #[toJson h.1, toJson (decide (OrderedG h))])).toArray)]
+  | "sort.state" => some do
+      let evsJ ← getArr j "events"
+      let evs ← evsJ.mapM parseSOp
+      return obj [("sorts", Json.arr (runState evs).toArray)]
   | "sort.relink" => some do
       return obj [("r", natsJ (relink (← getNats j "cur") (← getNats j "xs")))]
   | _ => none
